@@ -242,7 +242,9 @@ PROPS["C13"] = dict(
 PROPS["C14"] = dict(
     n_quick=480, n_thorough=40000, shards=16, coq_dirs=["C14"], no_shrink=True, confirm_runs=2,
     rule="cases, each in a child process under strace -f in a fresh directory (destination pre-seeded, absent, or a non-empty directory so "
-         "that the rename fails): (50%) safe.WriteFileWithMode with 0-4 writer calls of sizes {0,1,10,4096,50000,65535,65536,65537,70000,"
+         "that the rename fails): (10%) safe.WriteFileWithMode under RLIMIT_FSIZE in {0,1,4096,65535,65536,65537,70000,131072,200000,400000} with a "
+         "writer that ignores its Write errors (write fault: short write, sticky bufio error, error only from the final Flush); "
+         "(40%) safe.WriteFileWithMode (the mode-less WriteFile/Create for mode 644) with 0-4 writer calls of sizes {0,1,10,4096,50000,65535,65536,65537,70000,"
          "131072,200000}, modes {644,600,755,666,400} under umask 022, the writer failing after k calls in a third of the cases; (30%) the "
          "File API with 1-6 operations among Write, Commit, Close in any order; (20%) WriteFile with the child SIGKILLed on entering the n-th "
          "write/close/renameat/openat (strace inject). Compared: the system calls on the temporary file as strace logged them (exclusive "
